@@ -35,6 +35,19 @@ the assignments made along a path `Model.A[1].B.C[2]…` in the order in which t
 `DynamicSpaceImpl._init_refs` / `_init_allargs` (space.py; orders extracted into
 `Generated.mxDynRefsOrder`, `Generated.mxAllargsOrder`, `Generated.mxNamespaceOrder`).
 
+## 3. How a reference value is written (`ParentTranslator.ref_value`, exporter.py)
+
+`_mx_assign_refs` of the generated classes assigns every reference from one of four sources,
+chosen by an `if/elif` chain over the VALUE (`Generated.exportRefValueOrder`): a modelx object
+becomes a relative attribute path, a value of a *literal type* (`Generated.exportLiteralTypes`)
+becomes `pprint.pformat(value)` in the source, a module found in `sys.modules` becomes
+`import_module(name)`, anything else goes to the IO data or to the pickled dict.  Whether "of
+a literal type" means `type(value) is t` or `isinstance(value, t)` (`Generated.exportLiteralTest`)
+decides what happens to instances of strict subclasses (enum members, numpy scalars, user
+classes): `readBack` says what the generated module binds when it is imported - the text of a
+literal is an expression of the type that OWNS the `repr`, so an instance of a subclass comes back,
+at best, as an instance of the base type.
+
 Abstractions: values are `Int` tags; an `Env` is an association list in which the first
 entry for a key is the current one; the pairing of new and base spaces by the two
 `_mx_walk()` generators is taken as the identity on the static tree (`SpaceD → Env`);
@@ -259,5 +272,68 @@ def CellsShadowed (aord : List String) (g : Env) (lv : List Level) (k : String) 
   | [] => False
   | inner :: _ => inner.sp.cells.contains k = true ∧
       ((argOf aord lv k).isSome ∨ (get (staticRefs g inner.sp) k).isSome)
+
+/-! ## 3. how a reference value is written -/
+
+/-- what `ref_value` looks at, and what identifies the value afterwards -/
+structure PyVal where
+  ty      : String               -- the exact type, `type(value)`
+  bases   : List String := []    -- its strict bases (the rest of `type(value).__mro__`)
+  iface   : Bool := false        -- a modelx object (`Interface`)
+  valid   : Bool := true         -- `value._is_valid()`
+  sysmod  : Bool := false        -- a module that is in `sys.modules`
+  iospec  : Bool := false        -- registered with an IOSpec (`DataManager.get_code`)
+  reprEvaluates : Bool := true   -- for a value of a literal type: `eval(repr(value))` is the value
+                                 -- (false for the floats nan, inf, -inf)
+  reprInherited : Bool := true   -- for an instance of a subclass: `repr` is the base type's
+  payload : Int := 0             -- the rest of the value
+  deriving Repr
+
+inductive Emit where
+  | path          -- `self._parent….name`
+  | noneLit       -- `None` for a modelx object that is no longer valid
+  | literal       -- `pprint.pformat(value)`
+  | importModule  -- `_mx_sys.import_module('name')`
+  | ioData        -- `io_data[id]`
+  | pickle        -- `pickle_data[id]`
+  deriving DecidableEq, Repr
+
+/-- the test of the literal branch -/
+def isLiteral (test : String) (lits : List String) (v : PyVal) : Bool :=
+  if test = "exact" then lits.contains v.ty
+  else if test = "isinstance" then (v.ty :: v.bases).any lits.contains
+  else false
+
+/-- `ParentTranslator.ref_value`: the first branch (in the extracted order) whose test holds;
+the last branch (`data`) has no test -/
+def refValue (test : String) (lits : List String) (v : PyVal) : List String → Emit
+  | [] => .pickle
+  | tag :: rest =>
+    if tag = "interface" then
+      (if v.iface then (if v.valid then .path else .noneLit) else refValue test lits v rest)
+    else if tag = "literal" then
+      (if isLiteral test lits v then .literal else refValue test lits v rest)
+    else if tag = "module" then
+      (if v.sysmod then .importModule else refValue test lits v rest)
+    else if tag = "data" then (if v.iospec then .ioData else .pickle)
+    else refValue test lits v rest
+
+/-- What the imported package binds, as (exact type, payload); `none`: the generated module
+cannot be imported (the text is not an expression, or names something the module does not
+define).  Paths, modules, IO data and pickles give the value back (assumed: the check validates
+them per generated model); a literal gives a value of the type that owns the `repr`. -/
+def readBack (lits : List String) (e : Emit) (v : PyVal) : Option (String × Int) :=
+  match e with
+  | .literal =>
+    if lits.contains v.ty then (if v.reprEvaluates then some (v.ty, v.payload) else none)
+    else if v.reprInherited then (v.bases.find? lits.contains).map (fun b => (b, v.payload))
+    else none
+  | .noneLit => some ("NoneType", 0)
+  | _ => some (v.ty, v.payload)
+
+/-- the trigger of known finding C15-nonfinite-float-ref: a value of a literal type whose `repr`
+is not a literal of that value -/
+def LiteralReprNotExpr (lits : List String) (v : PyVal) : Prop :=
+  lits.contains v.ty = true ∧ v.reprEvaluates = false
 
 end MxModel.Export
